@@ -186,3 +186,15 @@ V("C12", "slack_status_ignored", "violation", (SYSTEM, "                    if (
 V("C12", "g_islands_before_collect", "violation", (SYSTEM, "        self._e_to_dae(('f', 'g'))\n\n        # reset mismatches for islanded buses\n        self.g_islands()", "        # reset mismatches for islanded buses\n        self.g_islands()\n        self._e_to_dae(('f', 'g'))"), rule="C12.neutralise")
 V("C12", "no_recheck_after_event", "violation", (TDS, "        if ret is True and self.config.check_conn == 1:\n            system.connectivity(info=False)", "        if ret is True and self.config.check_conn == 1:\n            pass"), rule="C12.recheck")
 V("C12", "benign_bus_deps_order", "silent", (CONN, "    ('StaticLoad', ['bus']),\n    ('StaticShunt', ['bus']),", "    ('StaticShunt', ['bus']),\n    ('StaticLoad', ['bus']),"))
+
+# ---------------- C13
+MPCF = "andes/io/matpower.py"
+V("C13", "mpc_export_overwrites_loads", "violation", (MPCF, "        np.add.at(bus[:, 2], pq_pos, system.PQ.p0.v * base_mva)", "        bus[pq_pos, 2] = system.PQ.p0.v * base_mva"), rule="C13.scatter")
+V("C13", "mpc_export_q_not_scaled", "violation", (MPCF, "        gen[system.Slack.n:, 2] = system.PV.q0.v * base_mva", "        gen[system.Slack.n:, 2] = system.PV.q0.v"), rule="C13.mpc-inverse")
+V("C13", "mpc_export_qlimits_swapped", "violation", (MPCF, "        gen[system.Slack.n:, 3] = system.PV.qmax.v * base_mva\n        gen[system.Slack.n:, 4] = system.PV.qmin.v * base_mva", "        gen[system.Slack.n:, 3] = system.PV.qmin.v * base_mva\n        gen[system.Slack.n:, 4] = system.PV.qmax.v * base_mva"), rule="C13.mpc-inverse")
+V("C13", "mpc_import_angle_degrees", "violation", (MPCF, "        vang = data[8] * deg2rad", "        vang = data[8]"), rule="C13.mpc-inverse")
+V("C13", "mpc_export_phi_radians", "violation", (MPCF, "        branch[:, 9] = system.Line.phi.v * rad2deg", "        branch[:, 9] = system.Line.phi.v"), rule="C13.mpc-inverse")
+V("C13", "dyr_bad_output_key", "violation", ("andes/io/psse-dyr.yaml", "        Tpord: Tprod\n", "        Tprod: Tprod\n"), rule="C13.dyr")
+V("C13", "json_reader_skips_rows", "violation", ("andes/io/json.py", "        for row in dct:\n            system.add(name, row)", "        for row in dct[:1]:\n            system.__dict__[name].add(**row)"), rule="C13.roundtrip")
+V("C13", "add_keeps_uid", "violation", (SYSTEM, "        param_dict.pop('uid', None)\n", ""), rule="C13.roundtrip")
+V("C13", "benign_mpc_local_rename", "silent", (MPCF, "        vang = data[8] * deg2rad\n", "        vang = data[8] * deg2rad  # radians\n"))
